@@ -61,9 +61,9 @@ pub fn show_hex(o: W, s: &[u8]) -> std::fmt::Result {
 
 /// value of a (possibly private) field as printed by the derived Debug impl
 pub fn dbg_field<T: core::fmt::Debug>(v: &T, name: &str) -> u64 {
-    crate::alloc_count::pause();
+    let was = crate::alloc_count::suspend();
     let r = dbg_field_inner(v, name);
-    crate::alloc_count::resume();
+    crate::alloc_count::restore(was);
     r
 }
 fn dbg_field_inner<T: core::fmt::Debug>(v: &T, name: &str) -> u64 {
@@ -92,20 +92,26 @@ impl<I: Iterator> Iterator for Hinted<I> {
 /// methods a caller would use (whatever the crate overrides is what runs):
 /// 0 next | 1 nth(a) | 2 by_ref().take(a) | 3 count() | 4 last() | 5 step_by(a).take(64) | 6 skip(a) drained | 7 fold
 pub fn walk_iter<T, I: Iterator<Item = T>>(o: W, mut it: I, acts: &[usize], show: &dyn Fn(W, &T) -> std::fmt::Result) -> std::fmt::Result {
-    let opt = |o: W, x: Option<T>| match x {
-        Some(v) => show(o, &v),
-        None => o.write_str("none"),
-    };
-    let list = |o: W, v: Vec<T>| {
+    // nothing here allocates: the zero-allocation check (C06) runs the same scripts
+    fn opt<T>(o: W, x: Option<T>, show: &dyn Fn(W, &T) -> std::fmt::Result) -> std::fmt::Result {
+        match x {
+            Some(v) => show(o, &v),
+            None => o.write_str("none"),
+        }
+    }
+    fn list<T>(o: W, it: impl Iterator<Item = T>, show: &dyn Fn(W, &T) -> std::fmt::Result) -> std::fmt::Result {
         o.write_str("[")?;
-        for (i, x) in v.iter().enumerate() {
+        for (i, x) in it.enumerate() {
             if i > 0 {
                 o.write_str(" ")?;
             }
-            show(o, x)?;
+            show(o, &x)?;
+            if i > 100000 {
+                break;
+            }
         }
         o.write_str("]")
-    };
+    }
     o.write_str("[")?;
     let mut k = 0;
     while k + 1 < acts.len() {
@@ -115,43 +121,37 @@ pub fn walk_iter<T, I: Iterator<Item = T>>(o: W, mut it: I, acts: &[usize], show
         let (c, a) = (acts[k], acts[k + 1]);
         k += 2;
         match c {
-            0 => opt(o, it.next())?,
-            1 => opt(o, it.nth(a))?,
-            2 => {
-                let v: Vec<T> = it.by_ref().take(a).collect();
-                list(o, v)?
-            }
+            0 => opt(o, it.next(), show)?,
+            1 => opt(o, it.nth(a), show)?,
+            2 => list(o, it.by_ref().take(a), show)?,
             3 => {
                 write!(o, "{}", it.count())?;
                 break;
             }
             4 => {
-                opt(o, it.last())?;
+                opt(o, it.last(), show)?;
                 break;
             }
             5 => {
-                let v: Vec<T> = it.step_by(a.max(1)).take(64).collect();
-                list(o, v)?;
+                list(o, it.step_by(a.max(1)).take(64), show)?;
                 break;
             }
             6 => {
-                let mut v = Vec::new();
-                let mut sk = it.skip(a);
-                while let Some(x) = sk.next() {
-                    v.push(x);
-                    if v.len() > 100000 {
-                        break;
-                    }
-                }
-                list(o, v)?;
+                list(o, it.skip(a), show)?;
                 break;
             }
             7 => {
-                let v = it.fold(Vec::new(), |mut v, x| {
-                    v.push(x);
-                    v
+                o.write_str("[")?;
+                let r = it.fold(Ok(0usize), |acc: Result<usize, std::fmt::Error>, x| {
+                    let n = acc?;
+                    if n > 0 {
+                        o.write_str(" ")?;
+                    }
+                    show(o, &x)?;
+                    Ok(n + 1)
                 });
-                list(o, v)?;
+                r?;
+                o.write_str("]")?;
                 break;
             }
             _ => return Err(std::fmt::Error),
